@@ -39,6 +39,12 @@ def gen_tasks(tier, seed):
             tasks.append({**base, "ends": [w], "node_mode": True})
         sps = I.contiguous_subpaths(es, 3)
         tasks.append({**base, "constraints": [rng.choice(sps)]})
+        # length coverage < 1: the constraint is only partly required, but every edge (also the constraint's) must still be covered;
+        # one edge of the constraint short, the rest long -- every 2/3-edge constraint in turn
+        for c_ in [c for c in sps if len(c) >= 2][: (4 if tier == "quick" else 12)]:
+            for short in range(len(c_)):
+                lens = [(u, v, (1 if (u, v) == tuple(c_[short]) else 5) if (u, v) in [tuple(e) for e in c_] else 1) for (u, v) in es]
+                tasks.append({**base, "constraints": [c_], "cov_len": 0.8, "lengths": lens})
         if G.number_of_nodes() > 2:
             tasks.append({**base, "node_mode": True, "ignored": [rng.choice(list(G.nodes()))]})
     for name, es in I.digraphs(tier, rng, quick_n=10, thorough_n=250):
@@ -52,6 +58,11 @@ def gen_tasks(tier, seed):
             tasks.append({**base, "ignored": [e0]})
             e1 = rng.choice([e for e in es if e != e0])
             tasks.append({**base, "ignored": [e0, e1]})
+            if name in F.CURATED_DIGRAPHS:
+                # every single edge ignored in turn (the width with ignored edges inside a bundle between two SCCs)
+                for ex in es:
+                    if ex != e0:
+                        tasks.append({**base, "ignored": [ex]})
         if inner:
             v, w = rng.choice(inner), rng.choice(inner)
             tasks.append({**base, "starts": [v], "ends": [w]})
@@ -86,7 +97,10 @@ def spec_k(task, G, k, tag="S"):
         sp = spec.RouteSpec(G, k, starts=task["starts"], ends=task["ends"], tag=tag)
         cons = list(sp.cons) + spec.cover(sp, elements(task, G))
         if task["constraints"]:
-            cons += spec.constraints_satisfied(sp, task["constraints"])
+            if task.get("cov_len") is not None:
+                cons += spec.constraints_satisfied(sp, task["constraints"], task["cov_len"], {(u, v): l for (u, v, l) in task["lengths"]})
+            else:
+                cons += spec.constraints_satisfied(sp, task["constraints"])
     return sp, cons
 
 
@@ -159,7 +173,17 @@ def _kwargs(task, k=None):
         kw["additional_ends"] = task["ends"]
     if task["constraints"]:
         kw[ck] = task["constraints"]
+    if task.get("cov_len") is not None:
+        kw["subpath_constraints_coverage_length"] = task["cov_len"]
+        kw["length_attr"] = "length"
     return kw
+
+
+def _medges(task):
+    """edges as handed to the model: with a length attribute when the case uses length coverage"""
+    if task.get("lengths"):
+        return [(u, v, None, l) for (u, v, l) in task["lengths"]]
+    return task["edges"]
 
 
 def cover_problems(task, G, routes):
@@ -222,7 +246,7 @@ def run_task(task):
     # (b) k-cover models: LP_k feasible <=> k >= k_ref ; every answer of LP_k is a cover
     if k_ref >= 1:
         for k in sorted({max(1, k_ref - 1), k_ref, k_ref + 1}):
-            kt = {"cls": kn, "edges": task["edges"], "kwargs": _kwargs(task, k), "name": task["name"], "starts": task["starts"], "ends": task["ends"], "node_mode": task["node_mode"]}
+            kt = {"cls": kn, "edges": _medges(task), "kwargs": _kwargs(task, k), "name": task["name"], "starts": task["starts"], "ends": task["ends"], "node_mode": task["node_mode"]}
             try:
                 with hx.capture() as sess:
                     km, _ = models.construct(kt)
@@ -276,7 +300,7 @@ def run_task(task):
                 res["discharged"] += 1
 
     # (c) Min* wrappers
-    mt = {"cls": mn, "edges": task["edges"], "kwargs": _kwargs(task), "name": task["name"], "starts": task["starts"], "ends": task["ends"], "node_mode": task["node_mode"]}
+    mt = {"cls": mn, "edges": _medges(task), "kwargs": _kwargs(task), "name": task["name"], "starts": task["starts"], "ends": task["ends"], "node_mode": task["node_mode"]}
     try:
         with hx.capture() as sess:
             m, _ = models.construct(mt)
